@@ -118,3 +118,6 @@ PC(invert_flip, FLIP, INVERT, 0, 0)
 PC(slice_transpose, TRANSPOSE, SLICE, 0, 2)
 PC(sum_transpose, TRANSPOSE, SUM, 0, 2)
 PC(transpose_add_scalar, ADDS, TRANSPOSE, 0, 1)
+
+// 0-d result: reshape of a single-element array to the EMPTY shape (NumPy: a.reshape(()) for a.size == 1); the evaluated result must be 0-d and hold the element
+P(reshape0, view::reshape(a, mk_sv<int,4>(p, (size_t)0)))
